@@ -77,6 +77,8 @@ type Env struct {
 	// Bls (real mode only): the protocol parameters enable BLS: members sign their votes
 	// with BLS keys, PackVotes aggregates, verifyVotes checks the aggregate
 	Bls bool `json:"bls,omitempty"`
+	// HouseFrom (real mode): members with index >= HouseFrom are house validators (0 = none)
+	HouseFrom int `json:"house_from,omitempty"`
 	Stakes  []uint64 `json:"stakes,omitempty"` // stake of sender j (index 0 = self)
 	ValThr  uint64   `json:"val_thr,omitempty"`
 	SeedTag uint64   `json:"seed_tag,omitempty"`
@@ -445,6 +447,8 @@ type impl struct {
 	reader *fakeReader
 }
 
+func isHouse(h *History, j int) bool { return h.Env.Real && h.Env.HouseFrom > 0 && j >= h.Env.HouseFrom }
+
 // credWeight: the sortition verifier's weight for (sender, round, index, type); 0 = no seat
 func credWeight(h *History, from int, r uint64, i uint32, t int) uint32 {
 	for k := range h.Env.Creds {
@@ -575,7 +579,11 @@ func (im *impl) setupReal() {
 			}
 			blsPub = pk.Compress().Bytes()
 		}
-		v := state.NewValidator(fmt.Sprintf("v%d", j), addrs[j], addrs[j], params.RoleSenator, pub, blsPub,
+		role := params.RoleSenator
+		if isHouse(h, j) {
+			role = params.RoleHouse
+		}
+		v := state.NewValidator(fmt.Sprintf("v%d", j), addrs[j], addrs[j], role, pub, blsPub,
 			new(big.Int).SetUint64(st), new(big.Int).SetUint64(st), 0, 0, 0, params.ValidatorOnline)
 		vals = append(vals, v)
 	}
@@ -616,7 +624,7 @@ type sortVal struct {
 var sortMemo = map[sortKey]sortVal{}
 
 func realSortition(h *History, j int, idx uint32, t int) ([]byte, uint32) {
-	k := sortKey{h.Env.SeedTag, h.Env.ValThr, fmt.Sprint(h.Env.Stakes), j, idx, t}
+	k := sortKey{h.Env.SeedTag, h.Env.ValThr, fmt.Sprint(h.Env.Stakes, h.Env.HouseFrom), j, idx, t}
 	if v, ok := sortMemo[k]; ok {
 		return v.proof, v.sub
 	}
@@ -624,9 +632,11 @@ func realSortition(h *History, j int, idx uint32, t int) ([]byte, uint32) {
 	if err != nil {
 		panic(err)
 	}
-	var total uint64
-	for _, s := range h.Env.Stakes {
-		total += s
+	var total uint64 // the stake of the member's own kind
+	for k, s := range h.Env.Stakes {
+		if isHouse(h, k) == isHouse(h, j) {
+			total += s
+		}
 	}
 	seed := crypto.Keccak256Hash([]byte(fmt.Sprintf("verif-c03-seed-%d", h.Env.SeedTag)))
 	_, proof, sub := ucon.VrfSortition(sk, seed, idx, uint32(vtypes[t]), h.Env.ValThr, new(big.Int).SetUint64(h.Env.Stakes[j]), new(big.Int).SetUint64(total))
@@ -1663,6 +1673,9 @@ func normalize(h *History) {
 		m.StakeOk = m.Sender < len(h.Env.Stakes)
 		m.Thr = h.Env.ValThr
 		m.Kind = 0
+		if isHouse(h, m.Sender) {
+			m.Kind = 1
+		}
 		if m.Proof == 0 {
 			switch {
 			case m.Cred == 1 || m.Cred == 3 || m.Votes%2 == 1:
@@ -2425,10 +2438,109 @@ func genContexts(r *vf.Rng) History {
 	return h
 }
 
+// certificate rounds with HOUSE validators next to the chamber: house votes are tallied
+// apart with their own threshold and must never stand in for a chamber quorum - in
+// particular a house precommit quorum that arrives while the chamber precommits are
+// still short must not let the certificate quorum announce the commit
+func genHouse(r *vf.Rng) History {
+	h := History{Consistent: true}
+	h.Env.CertpOk, h.Env.EvidOn = true, r.Chance(50)
+	round := 32768 * uint64(1+r.Intn(3))
+	idx := uint32(1 + r.Intn(2))
+	thrC := uint64(6 + r.Intn(30)) // chamber threshold (both look-backs)
+	thrH := uint64(2 + r.Intn(6))  // house threshold
+	qP, qC, qH := uint64(goQuorum(thrC, true)), uint64(goQuorum(thrC, false)), uint64(goQuorum(thrH, true))
+	nC, nH := 3+r.Intn(4), 2+r.Intn(3)
+	lead := 1 + r.Intn(nBlocks)
+	other := 1 + (lead % nBlocks)
+	part := func(n int, total uint64) []uint32 { // n positive seats summing to total (or n if smaller)
+		out := make([]uint32, n)
+		for i := range out {
+			out[i] = 1
+		}
+		for left := int64(total) - int64(n); left > 0; left-- {
+			out[r.Intn(n)]++
+		}
+		return out
+	}
+	seatsP, seatsC := part(nC, qP), append(part(nC-1, qC), 1)
+	seatsH := part(nH, qH+uint64(r.Intn(2)))
+	msg := func(t, sender, hash int, votes uint32, kind int) {
+		m := &MsgOp{Status: 2, T: t, R: round, I: idx, H: hash, P: 1, Sender: sender, StakeOk: true, Kind: kind, Cred: 1, Votes: votes, Thr: thrC}
+		if kind == 1 {
+			m.Thr = thrH
+		}
+		h.Ops = append(h.Ops, Op{K: "msg", M: m})
+	}
+	if r.Chance(50) { // the voter itself may hold chamber seats for the certificate step
+		h.Env.Own = append(h.Env.Own, OwnView{R: round, I: idx, T: 3, Seats: 1, Thr: thrC, Kind: 0})
+	}
+	ctx := func(step uint32) {
+		h.Ops = append(h.Ops, Op{K: "ctx", R: round, I: idx, Step: step, Cert: true})
+	}
+	h.Ops = append(h.Ops, Op{K: "cache", H: lead, Present: true})
+	ctx(0)
+	ctx(4)
+	short := 1 + r.Intn(2) // chamber precommitters held back
+	if short >= nC {
+		short = nC - 1
+	}
+	type ev struct{ t, s, kind int }
+	var first []ev
+	for c := 0; c < nC-short; c++ {
+		first = append(first, ev{1, 1 + c, 0})
+	}
+	for k := 0; k < nH; k++ {
+		first = append(first, ev{1, 1 + nC + k, 1})
+		if r.Chance(30) {
+			first = append(first, ev{r.Intn(4), 1 + nC + k, 1}) // house members vote in the other steps too
+		}
+	}
+	for i := len(first) - 1; i > 0; i-- {
+		j := r.Intn(i + 1)
+		first[i], first[j] = first[j], first[i]
+	}
+	send := func(e ev) {
+		switch {
+		case e.kind == 1:
+			msg(e.t, e.s, lead, seatsH[e.s-1-nC], 1)
+		case e.t == 3:
+			msg(3, e.s, lead, seatsC[e.s-1], 0)
+		default:
+			msg(e.t, e.s, lead, seatsP[e.s-1], 0)
+		}
+	}
+	for _, e := range first {
+		send(e)
+	}
+	if r.Chance(60) {
+		ctx(5)
+	}
+	// the chamber certificate votes reach their quorum: no commit yet, the chamber
+	// precommits are short (one certificate voter is kept for the end)
+	for c := 0; c < nC-1; c++ {
+		send(ev{3, 1 + c, 0})
+	}
+	if r.Chance(30) {
+		msg(1, 1+nC+r.Intn(nH), other, seatsH[0], 1) // a house member double-votes
+	}
+	// now the held-back chamber precommits and the last certificate vote
+	for c := nC - short; c < nC; c++ {
+		send(ev{1, 1 + c, 0})
+	}
+	send(ev{3, nC, 0})
+	if r.Chance(40) {
+		send(ev{3, 1 + r.Intn(nC), 0})
+	}
+	ctx(4)
+	h.Ops = append(h.Ops, Op{K: "ctx", R: round, I: idx + 1, Step: 0, Cert: true})
+	return h
+}
+
 // real mode: a fake chain and validator set, real VRF credentials, the real
 // Server.verifySortition / getLookbackStakeInfo behind the voter and the real
 // Server.verifyVotes on every commit
-func genReal(r *vf.Rng, blsMode bool) History {
+func genReal(r *vf.Rng, blsMode, houseMode bool) History {
 	h := History{Consistent: true}
 	h.Env.Real, h.Env.CertpOk, h.Env.EvidOn = true, true, r.Chance(50)
 	h.Env.Bls = blsMode
@@ -2436,12 +2548,22 @@ func genReal(r *vf.Rng, blsMode bool) History {
 	if blsMode {
 		n = 3 + r.Intn(3) // every BLS vote costs a pairing: keep the committee small
 	}
+	heldP, heldC := -1, -1
+	if houseMode {
+		// the last two members are house validators; one chamber precommitter and one
+		// chamber certificate voter are held back until the house quorum and the
+		// certificate quorum have had their chance
+		n = 5 + r.Intn(4)
+		h.Env.HouseFrom = n - 1
+		heldP = 1 + r.Intn(n-2)
+		heldC = 1 + r.Intn(n-2)
+	}
 	for j := 0; j <= n; j++ {
 		h.Env.Stakes = append(h.Env.Stakes, uint64(5+r.Intn(200)))
 	}
 	h.Env.ValThr = uint64(3 + r.Intn(40))
 	h.Env.SeedTag = uint64(r.Intn(1 << 20))
-	cert := r.Chance(40) || blsMode
+	cert := r.Chance(40) || blsMode || houseMode
 	round := uint64(11 + r.Intn(5))
 	if cert {
 		round = 32768 * uint64(1+r.Intn(2))
@@ -2535,8 +2657,14 @@ func genReal(r *vf.Rng, blsMode bool) History {
 			j := r.Intn(i + 1)
 			ord[i], ord[j] = ord[j], ord[i]
 		}
+		if houseMode { // house members first
+			sort.SliceStable(ord, func(a, b int) bool { return isHouse(&h, ord[a]) && !isHouse(&h, ord[b]) })
+		}
 		for k, sd := range ord {
-			if r.Chance(10) {
+			if houseMode && ((t == 1 && sd == heldP) || (t == 3 && sd == heldC)) {
+				continue
+			}
+			if r.Chance(10) && !houseMode {
 				continue
 			}
 			if pi == staleAt && k == 0 {
@@ -2583,6 +2711,10 @@ func genReal(r *vf.Rng, blsMode bool) History {
 				vote(phases[r.Intn(pi+1)], ord[r.Intn(k+1)], other, true)
 			}
 		}
+	}
+	if houseMode {
+		vote(1, heldP, lead, true)
+		vote(3, heldC, lead, true)
 	}
 	if r.Chance(50) {
 		// double votes of counted members and late votes after the (possible) commit
@@ -2642,11 +2774,15 @@ func gen(seed uint64, n int, outDir, corpusDir string) {
 		case r.Chance(30):
 			hs = append(hs, genFlow(r))
 		case r.Chance(25):
-			hs = append(hs, genReal(r, false))
+			hs = append(hs, genReal(r, false, false))
 		case r.Chance(6):
-			hs = append(hs, genReal(r, true))
+			hs = append(hs, genReal(r, true, false))
 		case r.Chance(15):
 			hs = append(hs, genContexts(r))
+		case r.Chance(12):
+			hs = append(hs, genHouse(r))
+		case r.Chance(6):
+			hs = append(hs, genReal(r, false, true))
 		default:
 			hs = append(hs, genHistory(r))
 		}
@@ -2663,6 +2799,9 @@ func gen(seed uint64, n int, outDir, corpusDir string) {
 		res.Distribution["during_overtook_the_message"] += rr.overtook
 		if h.Env.Bls {
 			res.Count("case_bls")
+		}
+		if h.Env.HouseFrom > 0 {
+			res.Count("case_real_with_house")
 		}
 		if h.Env.Real {
 			res.Count("case_real")
